@@ -896,6 +896,120 @@ example (nres k : Nat) (hk : k < nres) :
   · unfold lossKernel robustKernels kernelList; simp [hk]
   · unfold stepCorrector correctors userCorrectors; simp
 
+/-- **The second-order clause at the level of one optimiser step** (pass 10; dense, unweighted): for any selection in which the
+corrector applied to residual tensor `k` is FastTriggs or Triggs of a kernel with slope `ρ' > 0` (or `Trivial`), the matrix
+`J'ᵀJ'` of the stacked system — what LM forms as `J.T @ J` before clamping / damping and what GN's solver sees as normal matrix —
+is `Σ_k Σ_i ρ'_k(‖R_ki‖²) J_kiᵀJ_ki`, plus `2ρ''_k J_kiᵀR_ki R_kiᵀJ_ki` exactly on the items of the tensors corrected by **Triggs**
+where `ρ''_k > 0` and `R_ki ≠ 0`; tensors without a kernel contribute `J_kᵀJ_k`. Any number of tensors, batch sizes, dimensions. -/
+theorem step_hessian_consistent {κ γ : Type} (sem : CSel κ γ → CorrSem ℝ) (cs : List (CSel κ γ)) (nres : Nat)
+    (hpos : ∀ cc tr ρ1 ρ2, sem cc = some (tr, ρ1, ρ2) → ∀ x, 0 ≤ x → 0 < ρ1 x)
+    (res : Nat → Nat × Nat × (Nat → Nat → ℝ) × (Nat → Nat → Nat → ℝ)) (l m : Nat) :
+    stepJtJ sem cs nres res l m = ∑ k ∈ range nres,
+      match stepCorrector cs k with
+      | none => 0
+      | some cc =>
+        match sem cc with
+        | none => ∑ i ∈ range (res k).1, ∑ a ∈ range (res k).2.1, (res k).2.2.2 i a l * (res k).2.2.2 i a m
+        | some (tr, ρ1, ρ2) =>
+          ∑ i ∈ range (res k).1, (ρ1 (normSq (res k).2.1 ((res k).2.2.1 i)) *
+              ∑ a ∈ range (res k).2.1, (res k).2.2.2 i a l * (res k).2.2.2 i a m
+            + if tr = true ∧ 0 < ρ2 (normSq (res k).2.1 ((res k).2.2.1 i)) ∧ ∃ a < (res k).2.1, (res k).2.2.1 i a ≠ 0 then
+                2 * ρ2 (normSq (res k).2.1 ((res k).2.2.1 i)) *
+                  ((∑ a ∈ range (res k).2.1, (res k).2.2.2 i a l * (res k).2.2.1 i a) *
+                   (∑ a ∈ range (res k).2.1, (res k).2.2.1 i a * (res k).2.2.2 i a m))
+              else 0) := by
+  unfold stepJtJ
+  simp only [sumN_eq_sum]
+  refine sum_congr rfl fun k _ => ?_
+  cases hs : stepCorrector cs k with
+  | none => simp
+  | some cc =>
+    simp only []
+    cases hsem : sem cc with
+    | none =>
+      simp only [applyCorr]
+      unfold JtJ; simp only [sumN_eq_sum]
+    | some v =>
+      obtain ⟨tr, ρ1, ρ2⟩ := v
+      have hp := hpos cc tr ρ1 ρ2 hsem
+      cases tr with
+      | false =>
+        simp only [applyCorr]
+        rw [fastTriggs_hess (res k).1 (res k).2.1 (res k).2.2.1 (res k).2.2.2 ρ1 (fun x hx => (hp x hx).le) l m]
+        refine sum_congr rfl fun i _ => ?_
+        simp
+      | true =>
+        simp only [applyCorr]
+        rw [triggs_hess (res k).1 (res k).2.1 (res k).2.2.1 (res k).2.2.2 ρ1 ρ2 hp l m]
+        refine sum_congr rfl fun i _ => ?_
+        simp
+
+/-- non-vacuity of `hpos`: the optimiser's own correctors for a Cauchy kernel -/
+example : ∀ (cc : CSel Unit Unit) tr (ρ1 ρ2 : ℝ → ℝ),
+    autoSem (fun _ : KSel Unit => cauchyD1 (1:ℝ)) (fun _ => cauchyD2 (1:ℝ)) cc = some (tr, ρ1, ρ2) → ∀ x : ℝ, 0 ≤ x → 0 < ρ1 x := by
+  intro cc tr ρ1 ρ2 h x hx
+  cases cc with
+  | auto c =>
+    simp only [autoSem, Option.some.injEq, Prod.mk.injEq] at h
+    rw [← h.2.1]; exact cauchyD1_pos one_pos hx
+  | trivial => simp [autoSem] at h
+  | user c => simp [autoSem] at h
+
+/-- **The Hessian the correctors preserve** (pass 10). For residuals affine in a parameter coordinate, `R_i(s) = R⁰_i + s·J_i`, the
+first derivative of the reported loss is `g(s) = 2 Σ_i ρ'(‖R_i(s)‖²) J_iᵀR_i(s)` (`robust_loss_hasDerivAt`); its derivative — the
+second derivative of the robust loss — is `2 Σ_i [ρ' J_iᵀJ_i + 2ρ'' (J_iᵀR_i)²]`, for any kernel with `ρ'' = (ρ')'`. -/
+theorem robust_loss_second_derivative (ρ1 ρ2 : ℝ → ℝ) (N d : Nat) (r0 j : Nat → Nat → ℝ) (t : ℝ)
+    (hρ : ∀ i < N, HasDerivAt ρ1 (ρ2 (normSq d fun a => r0 i a + j i a * t)) (normSq d fun a => r0 i a + j i a * t)) :
+    HasDerivAt (fun s => 2 * ∑ i ∈ range N, ρ1 (normSq d fun a => r0 i a + j i a * s) * ∑ a ∈ range d, j i a * (r0 i a + j i a * s))
+      (2 * ∑ i ∈ range N, (ρ1 (normSq d fun a => r0 i a + j i a * t) * ∑ a ∈ range d, j i a * j i a
+        + 2 * ρ2 (normSq d fun a => r0 i a + j i a * t) *
+          ((∑ a ∈ range d, j i a * (r0 i a + j i a * t)) * (∑ a ∈ range d, (r0 i a + j i a * t) * j i a)))) t := by
+  apply HasDerivAt.const_mul
+  apply HasDerivAt.fun_sum
+  intro i hi
+  have hr : ∀ a, HasDerivAt (fun s => r0 i a + j i a * s) (j i a) t := by
+    intro a; simpa using ((hasDerivAt_id t).const_mul (j i a)).const_add (r0 i a)
+  have hn : HasDerivAt (fun s => normSq d fun a => r0 i a + j i a * s) (2 * ∑ a ∈ range d, j i a * (r0 i a + j i a * t)) t := by
+    simp only [normSq_eq_sum]
+    rw [mul_sum]
+    apply HasDerivAt.fun_sum
+    intro a _
+    exact ((hr a).mul (hr a)).congr_deriv (by ring)
+  have hm : HasDerivAt (fun s => ∑ a ∈ range d, j i a * (r0 i a + j i a * s)) (∑ a ∈ range d, j i a * j i a) t := by
+    apply HasDerivAt.fun_sum
+    intro a _
+    exact (hr a).const_mul (j i a)
+  have hc := (hρ i (mem_range.mp hi)).comp t hn
+  refine (hc.mul hm).congr_deriv ?_
+  have : ∑ a ∈ range d, (r0 i a + j i a * t) * j i a = ∑ a ∈ range d, j i a * (r0 i a + j i a * t) :=
+    sum_congr rfl fun a _ => by ring
+  rw [this]
+  simp only [Function.comp_apply]
+  generalize (normSq d fun a => r0 i a + j i a * t) = x0
+  generalize (∑ a ∈ range d, j i a * (r0 i a + j i a * t)) = m
+  ring
+
+/-- … and that is exactly **twice Triggs' `J'ᵀJ'`** on a batch whose items are all in the curvature branch (`ρ'' > 0`, `R_i ≠ 0`): with Triggs
+the matrix `J'ᵀJ'` handed on is half the true second derivative of the reported loss for a model that is linear in the parameter —
+FastTriggs keeps only its first (Gauss–Newton) part `Σρ'JᵀJ` (`fastTriggs_hess`). -/
+theorem triggs_hess_is_half_second_derivative (ρ1 ρ2 : ℝ → ℝ) (hpos : ∀ x, 0 ≤ x → 0 < ρ1 x) (N d : Nat) (r0 j : Nat → Nat → ℝ) (t : ℝ)
+    (hρ : ∀ i < N, HasDerivAt ρ1 (ρ2 (normSq d fun a => r0 i a + j i a * t)) (normSq d fun a => r0 i a + j i a * t))
+    (hcurv : ∀ i < N, 0 < ρ2 (normSq d fun a => r0 i a + j i a * t) ∧ ∃ a < d, r0 i a + j i a * t ≠ 0) :
+    HasDerivAt (fun s => 2 * ∑ i ∈ range N, ρ1 (normSq d fun a => r0 i a + j i a * s) * ∑ a ∈ range d, j i a * (r0 i a + j i a * s))
+      (2 * JtJ N d (fun i => triggsOf ρ1 ρ2 d (fun a => r0 i a + j i a * t) (fun a _ => j i a)) 0 0) t := by
+  refine (robust_loss_second_derivative ρ1 ρ2 N d r0 j t hρ).congr_deriv ?_
+  congr 1
+  rw [triggs_hess N d (fun i a => r0 i a + j i a * t) (fun i a _ => j i a) ρ1 ρ2 hpos 0 0]
+  refine sum_congr rfl fun i hi => ?_
+  rw [if_pos (hcurv i (mem_range.mp hi))]
+
+/-- non-vacuity: the user kernel `ρ(x) = x + x²/2` (`ρ' = 1 + x`, `ρ'' = 1`), one item `R(s) = (1 + 2s, 0)` at `t = 0` -/
+example : (∀ x : ℝ, 0 ≤ x → 0 < polyD1 1 (1/2) 0 x) ∧
+    (∀ x : ℝ, HasDerivAt (polyD1 1 (1/2) 0) (polyD2 1 (1/2) 0 x) x) ∧
+    (0 < polyD2 1 (1/2) 0 (normSq 2 fun a => (if a = 0 then (1:ℝ) else 0) + (if a = 0 then 2 else 0) * 0) ∧
+      ∃ a < 2, (if a = 0 then (1:ℝ) else 0) + (if a = 0 then 2 else 0) * 0 ≠ 0) := by
+  refine ⟨fun x hx => by rw [polyD1_real]; nlinarith, fun x => poly_hasDerivAt2 _ _ _ x, by rw [polyD2_real]; norm_num, 0, by norm_num, by norm_num⟩
+
 /-! ### the `weight=` branch (outside C09's quantifier; modelled for honesty about the scope of the theorem above) -/
 /-- **The `weight=` branch (outside C09's quantifier), FastTriggs**: `J'ᵀ W R' = Σ_i ρ'(‖R_i‖²) · J_iᵀ W_i R_i` for every per-item
 weight matrix. Note what this is the gradient of: *not* of the reported loss `Σρ(‖R_i‖²)` (which ignores `W`) and not of
